@@ -1451,41 +1451,69 @@ def rule_sock_write(ctx, R):
 
 
 # ---- R-CODEC-INLINE -------------------------------------------------------------------------------
+def _const_bytes_len(b, o):
+    """length of a byte-string constant operand (directly or through a promoted reference /
+    unsize cast), else None"""
+    cs = []
+    if op_is_const(o):
+        cs = [(o.get("c") or "", o.get("ty") or "")]
+    else:
+        P = prov.operand_origins(b, o)
+        if P.params() or any(r[0] == "call" for r in P.roots):
+            return None
+        cs = [(r[1], "") for r in P.roots if r[0] == "const"]
+        for kind, bbi, x in prov.build_defs(b).get(op_place(o)["l"], ()):
+            if kind == "stmt" and x["r"]["k"] == "cast" and x["r"].get("from"):
+                cs.append(("", x["r"]["from"]))
+    for c, ty in cs:
+        m = re.search(r"\[u8; (\d+)\]", ty) or re.search(r"\[u8; (\d+)\]", c)
+        if m:
+            return int(m.group(1))
+        m = re.match(r'^(const )?b"((?:[^"\\]|\\.)*)"$', c)
+        if m:
+            return len(re.sub(r"\\x..|\\.", "x", m.group(2)))
+    return None
+
+
 def rule_codec_inline(ctx, R):
     """chunking independence of the inline forms: where the incremental parser recognises a
-    non-RESP byte string of fixed length N by comparing N buffered bytes with a constant
-    (`&buf[pos..pos+4] == b"PING"`), fewer than N buffered bytes that are a prefix of the constant
-    must mean `incomplete`, not fall through to the RESP parser (which refuses the first byte).
-    Every such comparison is dominated by a `CONSTANT.starts_with(available)` test of a constant
-    of the same length (the partial-arrival answer), or the parser has no inline forms."""
+    non-RESP byte string of fixed length N by comparing buffered bytes with a constant
+    (`&buf[pos..pos+4] == b"PING"`, `buf[pos..].starts_with(b"PING")`), fewer than N buffered
+    bytes that are a prefix of the constant must mean `incomplete`, not fall through to the RESP
+    parser (which refuses the first byte).  Every such recognition is preceded by a
+    `CONSTANT.starts_with(available)` test of a constant of the same length whose true edge
+    returns without parsing, or the parser has no inline forms."""
     b = ctx.prog.need("protocol::parser::RespParser::parse")
     n = 0
     pf = [i for i, t in b.calls() if callee(t) == "protocol::parser::parse_frame"]
+    rets = [x for x, bb_ in enumerate(b.bbs) if bb_["t"]["k"] == "return"]
+    recog = []
     for i, t in b.calls():
-        m = re.match(r"^<&?\[u8\] as std::cmp::PartialEq<&?\[u8; (\d+)\]>>::(eq|ne)$|^<\[u8; (\d+)\] as std::cmp::PartialEq<&?\[u8\]>>::(eq|ne)$", t["f"] or "")
-        if not m or b.bbs[i]["cleanup"]:
+        if b.bbs[i]["cleanup"]:
             continue
-        N = int(m.group(1) or m.group(3))
+        m = re.match(r"^<&?\[u8\] as std::cmp::PartialEq<&?\[u8; (\d+)\]>>::(eq|ne)$|^<\[u8; (\d+)\] as std::cmp::PartialEq<&?\[u8\]>>::(eq|ne)$", t["f"] or "")
+        if m:
+            recog.append((i, int(m.group(1) or m.group(3))))
+        elif re.search(r"<impl \[u8\]>::starts_with$", t["f"] or "") and len(t["a"]) == 2:
+            N = _const_bytes_len(b, t["a"][1])
+            if N is not None and _const_bytes_len(b, t["a"][0]) is None:
+                recog.append((i, N))
+    for i, N in recog:
         n += 1
         ok = False
         for j, tt in b.calls():
-            if re.search(r"<impl \[u8\]>::starts_with$", tt["f"] or "") and i in cfg.fwd(b, [j]) and tt["a"]:
-                # its true edge answers `incomplete`: a return is reachable from it without the
-                # RESP parser and without the comparison
-                sw = shared._follow_to_switch(b, tt["t"], tt["d"]["l"]) if tt["t"] >= 0 else None
-                if sw is None:
-                    continue
-                rets = [x for x, bb_ in enumerate(b.bbs) if bb_["t"]["k"] == "return"]
-                if cfg.path_avoiding(b, [sw[1]["o"]], rets, set(pf) | {i}) is None:
-                    continue
-                ty = b.locals[op_place(tt["a"][0])["l"]] if not op_is_const(tt["a"][0]) else (tt["a"][0].get("ty") or "")
-                P = prov.operand_origins(b, tt["a"][0]) if not op_is_const(tt["a"][0]) else None
-                consts = [r[1] for r in P.roots if r[0] == "const"] if P is not None else [tt["a"][0]["c"]]
-                if re.search(r"\[u8; %d\]" % N, ty or "") or any(re.search(r"\[u8; %d\]|b\".{%d}\"" % (N, N), c_ or "") for c_ in consts) or (consts and not (P is not None and P.params())):
-                    ok = True
+            if j == i or not re.search(r"<impl \[u8\]>::starts_with$", tt["f"] or "") or len(tt["a"]) != 2 or i not in cfg.fwd(b, [j]):
+                continue
+            if _const_bytes_len(b, tt["a"][0]) != N:
+                continue
+            sw = shared._follow_to_switch(b, tt["t"], tt["d"]["l"]) if tt["t"] >= 0 else None
+            if sw is None:
+                continue
+            if cfg.path_avoiding(b, [sw[1]["o"]], rets, set(pf) | {i}) is not None:
+                ok = True
         R.inst(b.fn, "inline-form:%d-bytes" % N, {"at": b.loc(i), "constant_length": N, "partial_arrival_answered_incomplete": ok})
         if not ok:
             R.finding(b.fn, "inline-form:%d-bytes:partial-arrival-is-an-error" % N,
-                      "the parser recognises a %d-byte inline form by comparing %d buffered bytes with a constant (line %d) but has no prefix test for fewer bytes: when the form arrives split (`PI` then `NG`) the bytes fall through to the RESP parser and the client gets a protocol error -- the answer depends on how the request was split into reads" % (N, N, b.bb_line(i)), b.loc(i))
-    R.inst(b.fn, "inline-forms", {"fixed_length_comparisons": n, "parse_frame_calls": len(pf)})
+                      "the parser recognises a %d-byte inline form by comparing buffered bytes with a constant (line %d) but has no prefix test for fewer bytes: when the form arrives split (`PI` then `NG`) the bytes fall through to the RESP parser and the client gets a protocol error -- the answer depends on how the request was split into reads" % (N, b.bb_line(i)), b.loc(i))
+    R.inst(b.fn, "inline-forms", {"recognitions": n, "parse_frame_calls": len(pf)})
     R.floor("inline_form_comparisons", n)
